@@ -31,7 +31,11 @@ INVALID_COMPONENTS = ["has space.txt", "9lead.txt", "ünï.txt", "tail\n", "mid\
                       "x.txt ", "(paren)", "café", "中文.txt", "tab\there", "q?.txt",
                       "trailing.\n", "~tilde"]
 HIDDEN_COMPONENTS = [".gitignore", ".hidden", ".x.txt", ".DS_Store", ".keep", "..data"]
-WS = [" ", "\t", "\n", "\x0b", "\x0c"]
+# ASCII whitespace, plus characters with the Unicode White_Space property (NEL, NBSP, EN/EM
+# spaces, line/paragraph separator, ideographic space).  U+001C..U+001F are not generated:
+# they are "whitespace" only for Python's str.isspace, not for Unicode.
+WS = [" ", "\t", "\n", "\x0b", "\x0c", " ", "\t", "\n",
+      "\u0085", "\u00a0", "\u2002", "\u2003", "\u2009", "\u2028", "\u2029", "\u202f", "\u3000"]
 BODIES = ["", "x", "namespace Foo", "line1\nline2", "a  b", "  inner\ttab  ", "äöü 中",
           "{\n  \"k\": 1\n}", "\U0001f600", "z" * 300]
 BAD_UTF8 = [b"\xff", b"abc\xfe", b"\xc3\x28", b"ok \xe2\x82", b"\xed\xa0\x80", b"\x80start"]
@@ -59,7 +63,7 @@ def describe() -> dict:
         "stub": ["os.scandir / os.listdir order (seeded permutation of real DirEntry objects)"],
         "assumptions": [
             "'valid snippet key' is the repository's own IMPLEMENTATION_KEY_RE",
-            "whitespace = space, tab, newline, VT, FF (exotic Unicode whitespace, BOM and CR are not generated: the statement is silent about them)",
+            "whitespace = ASCII space, tab, newline, VT, FF and the characters with the Unicode White_Space property (NEL, NBSP, EN/EM/thin space, LS, PS, NNBSP, ideographic space); U+001C..U+001F, BOM and CR are not generated: the statement is silent about them",
             "files below hidden directories, symlinks and special files are not generated",
         ],
     }
